@@ -35,10 +35,19 @@ def mk_schema(k):
     return getattr(Database("d"), "s")
 
 
-def mk_table(name_i, schema_k, alias_i, temporal_i, cls_i):
+def mk_table(name_i, schema_k, alias_i, temporal_i, cls_i, derive=False):
+    """derive: the alias / temporal clause is added by the builder methods to a table object that was already used
+    (hashed, compared, rendered) - the derived copy must not inherit anything computed for the original."""
     name = "a" if name_i == 0 else "b"
     alias = None if alias_i == 0 else "x"
-    t = Table(name, schema=mk_schema(schema_k), alias=alias, query_cls=Query if cls_i == 0 else MySQLQuery)
+    if derive:
+        t = Table(name, schema=mk_schema(schema_k), query_cls=Query if cls_i == 0 else MySQLQuery)
+        hash(t), t == t, str(t), {t: 1}
+        if alias is not None:
+            t = t.as_(alias)
+        hash(t)
+    else:
+        t = Table(name, schema=mk_schema(schema_k), alias=alias, query_cls=Query if cls_i == 0 else MySQLQuery)
     if temporal_i == 1:
         t = t.for_(Field("sys").between("p", "q"))
     elif temporal_i == 2:
@@ -99,21 +108,23 @@ def stable_under_render(a, ctxs):
     cubes={"s1": range(NSCHEMA), "s2": range(NSCHEMA)},
     bounds={"quick": {}, "thorough": {}},
     timeout={"quick": 300, "thorough": 900},
-    witness=[dict(s1=0, s2=1, n1=0, n2=0, a1=0, a2=1, t1=1, t2=0, a3=0), dict(s1=1, s2=4, n1=0, n2=0, a1=0, a2=0, t1=1, t2=0, a3=0)],
+    witness=[dict(s1=0, s2=1, n1=0, n2=0, a1=0, a2=1, t1=1, t2=0, a3=0, dv=False), dict(s1=1, s2=4, n1=0, n2=0, a1=0, a2=0, t1=1, t2=0, a3=0, dv=False),
+             dict(s1=1, s2=1, n1=0, n2=0, a1=1, a2=1, t1=0, t2=0, a3=1, dv=True)],
     doc="all pairs (and triples with a third plain/aliased table) of tables from name x schema form x alias x temporal "
-        "clause x query class: reflexive, symmetric, transitive, eq => equal hashes, set/dict membership = ==, stable "
+        "clause x query class, built directly or derived (as_, for_) from an already hashed object: reflexive, symmetric, transitive, eq => equal hashes, set/dict membership = ==, stable "
         "under rendering",
 )
-def c17_tables(s1: int, s2: int, n1: int, n2: int, a1: int, a2: int, t1: int, t2: int, a3: int) -> int:
+def c17_tables(s1: int, s2: int, n1: int, n2: int, a1: int, a2: int, t1: int, t2: int, a3: int, dv: bool) -> int:
     """
     bound: 0 <= n1 <= 1 and 0 <= n2 <= 1 and 0 <= a1 <= 1 and 0 <= a2 <= 1 and 0 <= a3 <= 1
     bound: 0 <= t1 <= 2 and 0 <= t2 <= 2
     """
     n1, n2, a1, a2, a3, t1, t2 = pin(n1, 2), pin(n2, 2), pin(a1, 2), pin(a2, 2), pin(a3, 2), pin(t1, 3), pin(t2, 3)
+    dv = bool(dv)
     with _NoTracing():  # the selectors are pinned: everything below is concrete
-        A = mk_table(n1, s1, a1, t1, 0)
+        A = mk_table(n1, s1, a1, t1, 0, dv)
         B = mk_table(n2, s2, a2, t2, 1)  # the other query class
-        C = mk_table(n2, s2, a3, 0, 0)
+        C = mk_table(n2, s2, a3, 0, 0, dv)
         why = laws(A, B) or laws(B, C) or laws(A, C)
         if why is None and (A == B) and (B == C) and not (A == C):
             why = "not transitive"
@@ -122,7 +133,7 @@ def c17_tables(s1: int, s2: int, n1: int, n2: int, a1: int, a2: int, t1: int, t2
         note("A", repr(A.__dict__))
         note("B", repr(B.__dict__))
         note("why", why)
-    return verdict(why is None, "c17_tables", s1=s1, s2=s2, n1=n1, n2=n2, a1=a1, a2=a2, t1=t1, t2=t2, a3=a3)
+    return verdict(why is None, "c17_tables", s1=s1, s2=s2, n1=n1, n2=n2, a1=a1, a2=a2, t1=t1, t2=t2, a3=a3, dv=dv)
 
 
 def mk_other(kind, name_i, alias_i, from_i, d):
